@@ -21,6 +21,8 @@ type Sink struct {
 	N     int64
 	// Counts per event name
 	Counts map[string]int
+	// LineFlush flushes after every event (for scenarios that may crash the process)
+	LineFlush bool
 }
 
 func Open(path string) (*Sink, error) {
@@ -59,6 +61,9 @@ func (s *Sink) Emit(src, ev string, kv ...any) int64 {
 	s.w.WriteByte('\n')
 	s.N++
 	s.Counts[ev]++
+	if s.LineFlush {
+		s.w.Flush()
+	}
 	return s.seq
 }
 
